@@ -144,16 +144,20 @@ def handle (j : Json) : Json :=
     match (getStr? j "file").map pathOf with
     | none => Json.mkObj [("kind", "bad-request")]
     | some f =>
-      let (r, wr) := compileFile (parseOpts j) fs (parseCfgs j) f
+      let cfgs := parseCfgs j
+      let (r, wr) := compileFile (parseOpts j) fs cfgs f
       let base := jResult r
-      match wr with
-      | none => base.setObjVal! "cfgWrite" Json.null
-      | some (dir, c) =>
-        let o := c.toOpts
-        base.setObjVal! "cfgWrite" (Json.mkObj [("dir", Json.str (pathStr dir)),
+      let jo := fun (o : Opts) => Json.mkObj [
           ("stack_limit", toJson o.stackLimit), ("include_comments", toJson o.comments),
           ("flipper_commands", toJson o.flipper), ("supress_command_not_exist", toJson o.suppress),
-          ("use_project_config", toJson o.useProject)])
+          ("use_project_config", toJson o.useProject)]
+      -- the options the project file denotes after the call (null when there is no project file)
+      let after : Json := match wr with
+        | some (_, c) => jo c.toOpts
+        | none => match cfgs.find? (·.1 == parentDir f) with
+          | some (_, c) => jo c.toOpts
+          | none => Json.null
+      base.setObjVal! "cfgAfter" after
   | "parse" =>
     match src with
     | none => Json.mkObj [("kind", "bad-request")]
